@@ -144,7 +144,7 @@ def check_C16(ctx):
 # --------------------------------------------------------------------------- C17
 
 C17_LAWS = ["PlusMinusInverse", "Commutative", "FloorCeil", "RoundNearest", "AbsNonNeg", "DivisionUndoes",
-            "IntDivisionBounds", "ZeroDivisorIsError", "NotANumberIsError", "ModuloRange"]
+            "IntDivisionBounds", "ZeroDivisorIsError", "NotANumberIsError", "ModuloRange", "BigModuloDecided"]
 
 
 def check_C17(ctx):
